@@ -458,7 +458,7 @@ func (a *RF) Subst(m map[AtomID]*RF) *RF {
 				}
 				if changed {
 					res = s.MakeFn(at.Name, args...)
-				s.inheritFlags(res, at)
+					s.inheritFlags(res, at)
 					s.inheritFlags(res, at)
 				} else {
 					res = s.atomRF(id)
